@@ -405,7 +405,7 @@ def _configure_node(var, data, nodemap, model):
 
         # Insert into tree, recursively configuring nodes
         if role == CONCEPT_ROLE:
-            if not target:
+            if target is None or target == '':
                 continue  # prefer (a) over (a /) when concept is missing
             edges.insert(0, ('/', target, epis))
         else:
